@@ -327,6 +327,11 @@ fn ell2_oracle<C: Elligator2Config>(u: C::BaseField) -> (C::BaseField, C::BaseFi
 }
 
 pub fn elligator<C: Elligator2Config>(t: &mut Tally, name: &str, rng: &mut Rng) {
+    elligator_map::<C>(t, name, rng);
+    hash::<te::Projective<C>, Elligator2Map<C>>(t, name, rng);
+}
+/// the map alone (the full-hash checks demand distinct images of distinct messages, which a 29-point toy group cannot give)
+pub fn elligator_map<C: Elligator2Config>(t: &mut Tally, name: &str, rng: &mut Rng) {
     t.check(<Elligator2Map<C> as MapToCurve<te::Projective<C>>>::check_parameters().is_ok(), || format!("{name}: Elligator2 check_parameters rejects the shipped parameters"));
     t.check(C::Z.legendre().is_qnr(), || format!("{name}: Elligator2 Z is a square"));
     let mut v = vec![C::BaseField::zero(), C::BaseField::one(), -C::BaseField::one(), C::Z];
@@ -344,7 +349,63 @@ pub fn elligator<C: Elligator2Config>(t: &mut Tally, name: &str, rng: &mut Rng) 
             None => {},
         }
     }
-    hash::<te::Projective<C>, Elligator2Map<C>>(t, name, rng);
+}
+
+// ---- a toy Elligator2 configuration on which the exceptional inputs 1 + Z u^2 = 0 EXIST (q = 107 = 3 mod 4, Z = -1, u = +-1;
+//      on the shipped bandersnatch curve -1/Z is a non-square and that branch is unreachable): x^2 + y^2 = 1 + 15 x^2 y^2 over
+//      F_107, 116 = 4 * 29 points, Montgomery form 15 t^2 = s^3 + 13 s^2 + s (parameters recomputed by brute force in Python).
+//      The whole field is mapped and compared with the RFC 9380 oracle.
+pub mod toy_ell2 {
+    use ark_ec::{hashing::curve_maps::elligator2::Elligator2Config, twisted_edwards::{Affine, MontCurveConfig, TECurveConfig}, CurveConfig};
+    use ark_ff::{fields::Fp64, MontBackend, MontFp};
+    #[derive(ark_ff::MontConfig)]
+    #[modulus = "107"]
+    #[generator = "2"]
+    pub struct F107Config;
+    pub type F107 = Fp64<MontBackend<F107Config, 1>>;
+    #[derive(ark_ff::MontConfig)]
+    #[modulus = "29"]
+    #[generator = "2"]
+    pub struct F29Config;
+    pub type F29 = Fp64<MontBackend<F29Config, 1>>;
+    pub struct Toy;
+    impl CurveConfig for Toy {
+        const COFACTOR: &'static [u64] = &[4];
+        const COFACTOR_INV: F29 = MontFp!("22");
+        type BaseField = F107;
+        type ScalarField = F29;
+    }
+    impl TECurveConfig for Toy {
+        const COEFF_A: F107 = MontFp!("1");
+        const COEFF_D: F107 = MontFp!("15");
+        const GENERATOR: Affine<Self> = Affine::new_unchecked(MontFp!("60"), MontFp!("63"));
+        type MontCurveConfig = Self;
+    }
+    impl MontCurveConfig for Toy {
+        const COEFF_A: F107 = MontFp!("13");
+        const COEFF_B: F107 = MontFp!("15");
+        type TECurveConfig = Self;
+    }
+    impl Elligator2Config for Toy {
+        const Z: F107 = MontFp!("-1");
+        const ONE_OVER_COEFF_B_SQUARE: F107 = MontFp!("39");
+        const COEFF_A_OVER_COEFF_B: F107 = MontFp!("8");
+    }
+}
+fn elligator_toy(t: &mut Tally, name: &str, rng: &mut Rng) {
+    use toy_ell2::{Toy, F107};
+    elligator_map::<Toy>(t, name, rng);
+    let mut exceptional = 0;
+    for k in 0..107u64 {
+        let u = F107::from(k);
+        if (F107::one() + <Toy as Elligator2Config>::Z * u.square()).is_zero() { exceptional += 1; }
+        match t.no_panic(|| <Elligator2Map<Toy> as MapToCurve<te::Projective<Toy>>>::map_to_curve(u), || format!("{name}: Elligator2 map_to_curve({u}) panics")) {
+            Some(Ok(p)) => t.check((p.x, p.y) == ell2_oracle::<Toy>(u), || format!("{name}: Elligator2 map_to_curve({u}) differs from RFC 9380 6.7.1 + appendix D.1")),
+            Some(Err(e)) => t.check(false, || format!("{name}: Elligator2 map_to_curve({u}) = Err({e})")),
+            None => {},
+        }
+    }
+    t.check(exceptional == 2, || format!("{name}: expected two exceptional inputs, found {exceptional} (vacuous)"));
 }
 
 fn hash<G: CurveGroup, M: MapToCurve<G>>(t: &mut Tally, name: &str, rng: &mut Rng) where G::ScalarField: PrimeField {
@@ -402,4 +463,5 @@ pub fn all(t: &mut Tally, rng: &mut Rng) {
     guard(t, "test-curves/bls12_381 g1 [isogeny kernel]", rng, wb_kernel::<ark_test_curves::bls12_381::g1::Config>);
     guard(t, "test-curves/bls12_381 g2 [isogeny kernel]", rng, wb_kernel::<ark_test_curves::bls12_381::g2::Config>);
     guard(t, "curves/ed_on_bls12_381_bandersnatch", rng, elligator::<ark_ed_on_bls12_381_bandersnatch::BandersnatchConfig>);
+    guard(t, "toy Elligator2 curve over F_107 (Z = -1: exceptional inputs exist)", rng, elligator_toy);
 }
